@@ -1,4 +1,5 @@
 import GV.Lib.CborBytes
+import GV.Lib.CborBytesFast
 import GV.Gen.GoLite
 /-
   C07 — transaction byte-offset extraction (core Lean only).
